@@ -57,6 +57,10 @@ def act (rows : List (List K)) (v : List K) : List K := rows.map (fun r => dot r
 /-- the rows `is` × columns `js` of an operator given as a function (the *source* operator of a conversion:
 arbitrary symbols) -/
 def rowsOf (D : Nat → Nat → K) (is js : List Nat) : List (List K) := is.map (fun i => js.map (fun j => D i j))
+/-- a stored operator (list of rows) / vector (list) read back as a function of the storage indices:
+how the result of one generated definition is fed to the next one -/
+def matOf (R : List (List K)) : Nat → Nat → K := fun i j => (R.getD i []).getD j 0
+def vecOf (l : List K) : Nat → K := fun i => l.getD i 0
 def i3 : List Nat := [0, 1, 2]
 def i4 : List Nat := [0, 1, 2, 3]
 def i5 : List Nat := [0, 1, 2, 3, 4]
